@@ -556,14 +556,18 @@ pub fn run(rep: &mut StageReport, tier: &str, seed: u64) {
             1 => 1,
             _ => rng.below(12) as usize,
         };
+        // one list in 500 carries messages around and beyond the frame limit: a batch is compressed as a whole
+        // before it is framed, so what it holds is not bounded by the frame limit
+        let huge = !miri && i % 500 == 7;
         let list: Vec<Bytes> = (0..n)
             .map(|_| {
                 let l = match rng.below(5) {
                     0 => 0,
                     1 => if miri { 40 } else { rng.below(5000) as usize },
+                    2 if huge => *rng.pick(&[65_536usize, 1_048_575, 1_048_576, 1_048_577, 1_100_000, 3_145_728]),
                     _ => rng.below(40) as usize,
                 };
-                payload(&mut rng, l)
+                if l > 100_000 { Bytes::from(vec![(l % 251) as u8; l]) } else { payload(&mut rng, l) }
             })
             .collect();
         let l2 = list.clone();
